@@ -1,5 +1,5 @@
 (** C09 — Databases opened by the same process do not affect one another. *)
-From Orbit Require Import Model.Instance Proofs.InstanceProofs.
+From Orbit Require Import Model.Instance Proofs.InstanceProofs Model.Joins Proofs.JoinsProofs.
 
 (** k databases on one instance (Model.Instance): store i owns log i, topic i, address i.
     With a write listener that ignores write events of other addresses and a replicator
@@ -60,3 +60,23 @@ Theorem C09_refuted_shared_bus :
     Some (mkSt [9%N] [9%N] (mkS 1%Z 1%Z) [] [SeWrite [9%N]] [(1%nat, [9%N])]).
 Proof. exact isolation_refuted_shared_bus. Qed.
 Print Assumptions C09_refuted_shared_bus.
+
+(** The direct channel (Model/Joins.v: k databases, a store answers the joins seen on its own
+    topic): for every sequence of writes and of peers joining topics, every head-exchange message
+    the instance sends goes to a peer that joined the topic of the database whose address the
+    message carries, and carries entries of that database only. *)
+Theorem C09_heads_only_to_peers_of_the_database :
+  forall k ops p a hs,
+    In (p, a, hs) (j_sent (jrun true ops (jinit k))) ->
+    In (JJoin a p) ops /\ forall e, In e hs -> In (JWrite a e) ops.
+Proof. exact joins_scoped. Qed.
+Print Assumptions C09_heads_only_to_peers_of_the_database.
+
+(** With the joins passed around among all the stores of the instance, a peer that joins the
+    topic of database 1 is sent the head of database 0, which it never joined.  Regression
+    witness. *)
+Theorem C09_refuted_shared_joins :
+  let ops := [JWrite 0 7%N; JJoin 1 5] in
+  In (5, 0, [7%N])%nat (j_sent (jrun false ops (jinit 2))) /\ ~ In (JJoin 0 5) ops.
+Proof. exact joins_refuted_shared. Qed.
+Print Assumptions C09_refuted_shared_joins.
